@@ -248,6 +248,42 @@ JudgeDecode(e) ==
                 ELSE IF IsErr(e) THEN {} ELSE {"accepted-" \o R.why})
 
 \* ---------------------------------------------------------------------------------------------
+\* structured objects (keys, opening proofs): on the wire, the concatenation of their items in declaration order
+ObjCtxW(e) == [raw |-> e.raw]
+ObjBytes(e) == FoldLeft(LAMBDA acc, i : acc \o EncodeUnits(TyOf(e.items[i].ty), AbsVal(TyOf(e.items[i].ty), e.items[i].val), ObjCtxW(e)),
+                        <<>>, [i \in 1..Len(e.items) |-> i])
+JudgeObjWrite(e) ==
+  IF \E i \in 1..Len(e.items) : ~ValidVal(TyOf(e.items[i].ty), e.items[i].val) THEN {"badinput"}
+  ELSE IF Panicked(e) THEN {"panic"}
+  ELSE LET B == ObjBytes(e) IN
+       (IF \E i \in 1..Len(e.items) : e.itemsa[i] # e.items[i].val THEN {"mutated"} ELSE {}) \cup
+       (IF Has(e, "werr")
+        THEN (IF IsErr(e) THEN {} ELSE {"swallowed-writer-error"})
+        ELSE (IF IsErr(e) THEN {"spurious-error"} ELSE {})
+             \cup (IF e.out # B THEN {"bytes"} ELSE {})
+             \cup (IF e.n # Len(e.out) THEN {"counter"} ELSE {}))
+
+ObjParse(e) ==
+  FoldLeft(LAMBDA acc, i :
+             IF ~acc.ok THEN acc
+             ELSE LET r == ParseItem(TyOf(e.tys[i]), e.wire, acc.p, [sg |-> e.sg, memo |-> memo, nonsq |-> nonsq])
+                  IN IF r.ok THEN [ok |-> TRUE, vs |-> Append(acc.vs, r.v), p |-> acc.p + r.n, why |-> ""]
+                     ELSE [ok |-> FALSE, vs |-> <<>>, p |-> acc.p, why |-> r.why],
+           [ok |-> TRUE, vs |-> <<>>, p |-> 0, why |-> ""], [i \in 1..Len(e.tys) |-> i])
+JudgeObjRead(e) ==
+  LET R == ObjParse(e)
+      structOk == ~e.eqlen \/ Len(R.vs[1]) = Len(R.vs[2])
+  IN IF Panicked(e) THEN {"panic"}
+     ELSE IF ~R.ok /\ R.why = "nowitness" THEN {"nowitness"}
+     ELSE (IF e.n # e.used THEN {"counter"} ELSE {})
+          \cup (IF R.ok /\ structOk
+                THEN IF IsErr(e) THEN {"spurious-error"}
+                     ELSE (IF e.used # R.p THEN {"consumed"} ELSE {})
+                          \cup (IF \E i \in 1..Len(e.tys) : ~CanonVal(TyOf(e.tys[i]), e.vals[i]) THEN {"noncanonical"}
+                                ELSE IF [i \in 1..Len(e.tys) |-> AbsVal(TyOf(e.tys[i]), e.vals[i])] \o <<>> # R.vs THEN {"value"} ELSE {})
+                ELSE IF IsErr(e) THEN {} ELSE {"accepted-" \o (IF R.ok THEN "length-mismatch" ELSE R.why)})
+
+\* ---------------------------------------------------------------------------------------------
 Judge(e) ==
   CASE e.op = "Know" -> IF \A i \in 1..Len(e.pts) : KnowOk(e.pts[i]) THEN {} ELSE {"badinput"}
     [] e.op = "KnowNot" -> IF \A i \in 1..Len(e.xs) : <<e.g, NonSqOf(e.g, e.xs[i])>> \in nonsq' THEN {} ELSE {"badinput"}
@@ -259,6 +295,8 @@ Judge(e) ==
     [] e.op = "Encode" -> JudgeEncode(e)
     [] e.op = "NewDecoder" -> IF ~SrcOk(e.src) THEN {"badinput"} ELSE IF Panicked(e) THEN {"panic"} ELSE {}
     [] e.op = "Decode" -> JudgeDecode(e)
+    [] e.op = "ObjWrite" -> JudgeObjWrite(e)
+    [] e.op = "ObjRead" -> JudgeObjRead(e)
     [] OTHER -> {"unknown-op"}
 
 \* successor state: per the specification; quantities that belong to the environment (what the writer
